@@ -1,2 +1,3 @@
 import WrglModel.Props.C03
-#print axioms Wrgl.C03_placeholder
+#print axioms Wrgl.C03_ingest_inv
+#print axioms Wrgl.C03_offsets
